@@ -48,7 +48,9 @@ def part(R):
             ops = tc.shrink(R, exe, h, kind, ops, lambda r, lb=it["label"]: any(x["label"] == lb for x in r.minimal), budget=40)
             what = {"T": "FIB name tree keeps nodes/fibPrefixes slots that no live entry requires",
                     "H": "hash-table FIB keeps real/virtual/virtual-name entries (or a stale md) that no live entry requires"}[it["label"]]
-            if "rnodes=" in it["text"]:
+            if "stale-next-hop" in it["text"]:
+                what = "the FIB holds a next-hop record that no registered route requires at that prefix"
+            elif "rnodes=" in it["text"]:
                 what = "RIB tree keeps nodes that no route requires"
             R.oracle_failure("tables-minimal:%s:%s" % (kind, it["label"]), what, dict(ops=ops, detail=it["text"][:1500], harness_kind=kind))
         # white-box divergences without a minimality failure
